@@ -5,6 +5,8 @@ import ProductMD.Model.ComposeInfoLegacy
 import ProductMD.Model.ImagesLegacy
 import ProductMD.Model.TreeInfoLegacy
 import ProductMD.Model.RpmsLegacy
+import ProductMD.Model.ComposeInfoDown
+import ProductMD.Model.TreeInfoDown
 import ProductMD.Driver.OpsBuilders
 /-!
 driver ops of C05: load a document of ANY format version through the legacy-aware readers
@@ -13,6 +15,7 @@ driver ops of C05: load a document of ANY format version through the legacy-awar
 * `c05_ci_cycle`  `{"doc": <parsed composeinfo JSON>}`
 * `c05_img_cycle` `{"doc": <parsed images JSON>}`
 * `c05_rpms_cycle` `{"doc": <parsed rpms JSON>}`
+* `c05_ti_down`   `{"spec": <tree spec>, "vs": text, "ver": [a, b], "child_key": "addons"|"variants"}` → `{"ok": [[section, [[k, v]..]]..]}`
 * `c05_ti_cycle`  `{"text": <.treeinfo text>, "floats": {text: {"int": n | "int_err": cls}}}`
 
 Answers: `{"load": {"ok": snapshot} | {"err": cls}, "dump": {"ok": text}, "reload": .., "dump2": ..}` (later keys only
@@ -45,6 +48,18 @@ def ciCycle (doc : PyVal) : PyVal :=
           .dict [(k%"load", okPy (ofCI x)), (k%"dump", okPy (pstr t1)), (k%"reload", okPy (ofCI x2)),
                  (k%"dump2", match dumps x2 with | .ok t2 => okPy (pstr t2) | .error e => errPy e)]
 end
+
+/-- the spec-level down-conversion and its documented result (compared with harness/formats/legacy.py on every case) -/
+def verOf (a : Json) : Nat × Nat := match getArr a "ver" with
+  | [x, y] => ((x.getNat?.toOption).getD 0, (y.getNat?.toOption).getD 0)
+  | _ => (0, 0)
+
+def ciDown (a : Json) : Json :=
+  OpsComposeInfo.wire (OpsComposeInfo.exceptPy (fun x => x)
+    (CI.down (getStrD a "vs") (verOf a) ((getBool? a "keep_internal").getD false) (OpsComposeInfo.toCI (get a "spec"))))
+
+def ciExpected (a : Json) : Json :=
+  OpsComposeInfo.wire (OpsComposeInfo.ofCI (CI.expected (verOf a) ((getBool? a "keep_internal").getD false) (OpsComposeInfo.toCI (get a "spec"))))
 
 /-! ### images -/
 section
@@ -91,6 +106,13 @@ def tiCycle (fo : FloatOracle) (text : Str) : Json :=
                        | .error e => errJson e)]
 end
 
+/-- the spec-level down-conversion of a tree (`TI.down`, the subject of C05_ti_faithful_down*): compared with
+harness/formats/legacy.py `ti_sections` on every generated case -/
+def tiDown (a : Json) : Json :=
+  match PM.TI.down (getStrD a "vs") (verOf a) (getStrD a "child_key") (OpsTreeInfo.treeInfoOf (get a "spec")) with
+  | .ok d => jok (OpsTreeInfo.jdoc d)
+  | .error e => errJson e
+
 /-! ### rpms -/
 section
 open PM.Mf PM.Driver.OpsBuilders
@@ -112,8 +134,11 @@ end
 
 def ops : List (String × (Json → Json)) :=
   [("c05_ci_cycle", fun a => OpsComposeInfo.wire (ciCycle (toPy (get a "doc")))),
+   ("c05_ci_down", ciDown),
+   ("c05_ci_expected", ciExpected),
    ("c05_img_cycle", fun a => imgCycle (toPy (get a "doc"))),
    ("c05_rpms_cycle", fun a => rpmsCycle (toPy (get a "doc"))),
+   ("c05_ti_down", tiDown),
    ("c05_ti_cycle", fun a => tiCycle (OpsTreeInfo.oracleOf (get a "floats")) (getStrD a "text"))]
 
 end PM.Driver.OpsC05
